@@ -1100,9 +1100,8 @@ pub fn big_programs() -> Vec<Program> {
             ops.push(child(100 + k, &format!("t{}.c", k - 1), k - 1));
             ops.push(finish(100 + k));
             ops.push(finish(k - 1));
-            if k % 16 == 0 {
-                ops.push(Op::Cycle);
-            }
+            // a cycle after every trace: what belongs to the next one must not go with it
+            ops.push(Op::Cycle);
         }
         ops.push(finish(69));
         out.push(Program::new("BIG-many-traces#1").worker("A", ops).collector(0, true, 0));
